@@ -50,11 +50,20 @@ pub fn corpus() -> Vec<Entry> {
         mk(3, "mulper2/c4/n8", Fid::F64, Hid::Rp64_256, 8, 4, 3, 2, 1, 1, 1),
         mk(4, "pow2+sum1", Fid::F62, Hid::Rp62_248, 10, 2, 2, 2, 0, 1, 1),
         mk(5, "reset/n8/s4/z3/d1", Fid::F128, Hid::Blake3_192, 8, 4, 2, 8, 1, 1, 1),
-        mk(6, "wide9", Fid::F64, Hid::Blake3_256, 10, 2, 1, 4, 0, 4, 4),
+        mk(6, "wide9", Fid::F64, Hid::Blake3_256, 10, 2, 1, 2, 0, 4, 4),
         mk(7, "exempt2/n8/deg2", Fid::F64, Hid::RpJive64_256, 10, 2, 1, 2, 3, 1, 1),
         // an AIR whose minimum blowup (4) is above the smallest encodable one
         mk(8, "pow5", Fid::F64, Hid::Blake3_256, 8, 4, 1, 4, 1, 1, 1),
     ]
+    .into_iter()
+    .map(|e| {
+        // every corpus entry must be a valid lattice point (otherwise the honest proof cannot be built)
+        if let Err(why) = e.cfg.valid_for(&e.shape) {
+            mck::report::machinery(&format!("corpus entry {} is outside the validity predicate: {why}", e.id));
+        }
+        e
+    })
+    .collect()
 }
 
 pub fn layout(cfg: &Cfg) -> r8::Layout {
